@@ -66,6 +66,9 @@ _EXT_CONSTS = {
     "string.ascii_uppercase": string.ascii_uppercase,
     "string.hexdigits": string.hexdigits,
     "string.punctuation": string.punctuation,
+    "string.printable": string.printable,
+    "string.whitespace": string.whitespace,
+    "string.octdigits": string.octdigits,
     "re.MULTILINE": re.MULTILINE,
     "re.DOTALL": re.DOTALL,
     "re.IGNORECASE": re.IGNORECASE,
